@@ -54,6 +54,11 @@ impl<F> Directory<F> {
         self.allocator.into_inner()
     }
 
+    #[cfg(cfb_verif)]
+    pub fn verif_parts(&self) -> (&Allocator<F>, &[DirEntry], u32) {
+        (&self.allocator, &self.dir_entries, self.dir_start_sector)
+    }
+
     pub fn stream_id_for_name_chain(&self, names: &[&str]) -> Option<u32> {
         let mut stream_id = consts::ROOT_STREAM_ID;
         for name in names.iter() {
